@@ -263,7 +263,7 @@ static std::string simx_body(const std::vector<std::string> &args, const SimxKV 
   for (auto &c : cells) { memory->write8(c.first, c.second); given.insert(c.first); }
   int ret = 0;
   std::string st;
-  alarm(20);
+  nv_cpu_alarm(20);
   if (args[0] == "tms1000") { st = simx_tms1000(kv, memory, ret); }
   else if (args[0] == "8008") { st = simx_8008(kv, memory, ret); }
   else if (args[0] == "lc3") { st = simx_lc3(kv, memory, ret); }
@@ -271,8 +271,8 @@ static std::string simx_body(const std::vector<std::string> &args, const SimxKV 
   else if (args[0] == "tms9900") { st = simx_tms9900(kv, memory, ret); }
   else if (args[0] == "ebpf") { st = simx_ebpf(kv, memory, ret); }
   else if (args[0] == "1802") { st = simx_1802(kv, memory, ret); }
-  else { alarm(0); delete memory; return "not-modelled"; }
-  alarm(0);
+  else { nv_cpu_alarm(0); delete memory; return "not-modelled"; }
+  nv_cpu_alarm(0);
   char buf[32];
   snprintf(buf, sizeof(buf), "ret=%d ", ret);
   std::string out = buf + st + " mem=" + sim_dump_cells(memory, given);
